@@ -189,11 +189,11 @@ def run(chk):
     tos = [w for w in ast.walk(sh.node) if isinstance(w, ast.AsyncWith) and any(norm.raw(it.context_expr) == "ceil_timeout(timeout)" for it in w.items)]
     aws = prog.awaits_in(sh.node)
     scoped = [a for a in aws if any(any(x is w for x in prog.enclosing(a, (ast.AsyncWith,))) for w in tos)]
-    # the flush wait: bounded by the same timeout, only for a connection whose write buffer is not empty - and a connection with a request in
-    # progress had its transport aborted just before (an aborted transport has an empty buffer), so this wait never adds to the two above
+    # the close wait (for connection_lost after a graceful close: buffered response, TLS close_notify): bounded by the same timeout, and not
+    # for a connection whose handler is still running - that one had its transport aborted just before
     flush = [a for a in aws if a not in scoped and isinstance(a.value, ast.Call) and norm.raw(a.value.func) in ("asyncio.wait", "asyncio.wait_for")
              and any(k.arg == "timeout" and norm.raw(k.value) == "timeout" for k in a.value.keywords)
-             and any("get_write_buffer_size" in l.text for c_ in PC.pc(a, raw=True) for l in c_)]
+             and any("get_write_buffer_size" in l.text or (l.text == "self._request_in_progress" and not l.pos) for c_ in PC.pc(a, raw=True) for l in c_)]
     aborted_first = [c for c in prog.calls_in(sh.node) if norm.raw(c.func) == "self.transport.abort" and PC.has_lit(PC.pc(c, raw=True), "self._request_in_progress", True) is not None
                      and all(c.lineno < a.lineno for a in flush)]
     if len(tos) == 2 and len(flush) <= 1 and set(map(id, aws)) == set(map(id, scoped + flush)) and (not flush or aborted_first):
@@ -260,6 +260,7 @@ def run(chk):
             else:
                 chk.violation("C20.entry", c, "await runner.setup()", "try: ... except BaseException: await runner.cleanup(); raise", "gunicorn worker: when a later startup step fails, contexts whose startup completed are never exited")
     hunt2_rules(chk, repo)
+    hunt4_rules(chk, repo)
     # ---- drain: a request that is being handled keeps receiving its input while the server waits for it ---------------------------
     dr = repo.func(PROTO, "RequestHandler.data_received")
     drops = [r for r in ast.walk(dr.node) if isinstance(r, ast.Return) and r.value is None and any(t in norm.fmt_cnf(PC.pc(r)) for t in ("self._close", "self._force_close"))]
@@ -296,6 +297,111 @@ def run(chk):
                 else:
                     chk.violation("C20.idle", c, K.short(c), "only in force_close()/start(), or under `not self._waiter.done()`",
                                   f"{name}() closes the transport of a connection that may already have a request queued (waiter resolved, handler not yet resumed): the request is handled but its response is lost")
+
+
+def hunt4_rules(chk, repo):
+    """Rules written after the fourth defect hunt (F219-F225)."""
+    from sa.dtable import Evaluator
+    rh = repo.cls(PROTO, "RequestHandler")
+    sh = rh.methods["shutdown"]
+    # ---- C20.closeonce: the closer that runs last does not close a transport a second time ------------------------------------------------------
+    # asyncio's TLS transport detaches from its connection on a second close(): it can then neither be queried nor aborted.  pre_shutdown()
+    # closes idle connections through close(), which leaves self.transport in place; whatever shutdown() calls afterwards must test is_closing().
+    late = {c.func.attr for c in prog.calls_in(sh.node) if isinstance(c.func, ast.Attribute) and norm.raw(c.func.value) == "self" and c.func.attr in rh.methods}
+    nclose = 0
+    for mname in sorted(late | {"shutdown"}):
+        for c in [c for c in prog.calls_in(rh.methods[mname].node) if norm.raw(c.func) in ("self.transport.close", "transport.close")]:
+            nclose += 1
+            recv = norm.raw(c.func.value)
+            if any((not l.pos and l.text == f"{recv}.is_closing()") for l in PC.units(PC.pc(K.stmt_of(c), raw=True))):
+                chk.ok("C20.closeonce", c, f"RequestHandler.{mname}(), run by shutdown() after pre_shutdown() may have closed the connection: close() only when the transport is not closing yet")
+            else:
+                chk.violation("C20.closeonce", c, K.short(c), f"if not {recv}.is_closing(): {recv}.close()",
+                              f"RequestHandler.{mname}() closes a transport that close() (pre_shutdown, idle connection) has closed already: the second close() detaches asyncio's TLS transport, the next transport call in shutdown() raises AttributeError out of Server.shutdown()'s gather - the other connections' drains are abandoned and cleanup() fails; a later abort() does nothing")
+    chk.expect_count("C20.closeonce", nclose, 1, "transport.close() calls in what RequestHandler.shutdown() runs")
+    # ---- C20.flush: the close wait covers every gracefully closed connection, also one whose transport attribute is gone ---------------------------
+    waits = [a for a in prog.awaits_in(sh.node) if isinstance(a.value, ast.Call) and norm.raw(a.value.func) in ("asyncio.wait", "asyncio.wait_for") and not any(
+        any(norm.raw(it.context_expr) == "ceil_timeout(timeout)" for it in w.items) for w in prog.enclosing(a, (ast.AsyncWith,)))]
+    if not waits:
+        chk.analysis_error("C20.flush: the wait for connection_lost() at the end of RequestHandler.shutdown() was not found")
+    else:
+        lits = [l for c_ in PC.pc(waits[0], raw=True) for l in c_]
+        if any("get_write_buffer_size" in l.text for l in lits):
+            chk.violation("C20.flush", waits[0], K.short(waits[0], 60), "if transport is not None and not self._request_in_progress:",
+                          "shutdown() waits for connection_lost() (and aborts after the timeout) only when the write buffer is not empty: a TLS connection whose peer does not answer close_notify has an empty buffer, cleanup() returns at once and the socket stays open for the 30 s of asyncio's SSL shutdown")
+        else:
+            chk.ok("C20.flush", waits[0], "the wait-then-abort step applies to every connection that was closed gracefully (buffered response or unanswered TLS close_notify), whatever the write buffer holds")
+        tdefs = [v for _d, v in norm.fn_defs(sh.node).defs.get("transport", []) if v is not None]
+        if any("_connections" in norm.raw(v) for v in tdefs):
+            chk.ok("C20.flush", sh, "a connection that force_close() (keep-alive timer) closed before shutdown - self.transport already None - is reclaimed through the server's connection table")
+        else:
+            chk.violation("C20.flush", sh, "transport = self.transport", "if transport is None and self._manager is not None: transport = self._manager._connections.get(self)",
+                          "a connection closed by the keep-alive timer while the tail of its response was still buffered has self.transport = None: shutdown() finds nothing to wait for or abort, cleanup() returns with the socket open")
+    # ---- C20.order.worker: under gunicorn the runner's two shutdown phases fit into graceful_timeout ------------------------------------------------
+    wk = repo.func("aiohttp/worker.py", "GunicornWebWorker._run")
+    kws = [k for c in prog.calls_in(wk.node) for k in c.keywords if k.arg == "shutdown_timeout"]
+    if not kws:
+        chk.analysis_error("C20.order.worker: shutdown_timeout= not found in GunicornWebWorker._run")
+    else:
+        try:
+            v = Evaluator({"self.cfg.graceful_timeout": 100.0}).ev(kws[0].value)
+        except AnalysisError as e:
+            v = None
+            chk.analysis_error(f"C20.order.worker: cannot evaluate `{norm.raw(kws[0].value)}`: {e}")
+        if v is not None and 2 * v <= 100.0:
+            chk.ok("C20.order.worker", kws[0].value, f"shutdown_timeout = {v:g}% of graceful_timeout: wait + cancel-and-wait end before the arbiter's SIGKILL, Application.cleanup() runs")
+        elif v is not None:
+            chk.violation("C20.order.worker", kws[0].value, norm.raw(kws[0].value), "graceful_timeout / 2 * 0.95",
+                          f"the worker hands {v:g}% of graceful_timeout to a runner that spends its shutdown_timeout twice (wait for handlers, then cancel and wait): with one hanging handler cleanup starts at 1.9 x graceful_timeout, after gunicorn has killed the worker - cleanup contexts and on_cleanup handlers never run")
+    # ---- C20.entry (site start): what follows runner.setup() in an entry point is undone like setup() itself --------------------------------------
+    ns = 0
+    for mod in repo.all_modules():
+        if not mod.rel.startswith("aiohttp/") or mod.rel == RUN:
+            continue
+        for fn in [f for c in mod.classes.values() for f in c.methods.values()] + list(mod.functions.values()):
+            setups = [c for c in prog.calls_in(fn.node) if isinstance(c.func, ast.Attribute) and c.func.attr == "setup" and "runner" in norm.raw(c.func.value).lower()]
+            if not setups:
+                continue
+            for c in [c for c in prog.calls_in(fn.node) if isinstance(c.func, ast.Attribute) and c.func.attr == "start" and "site" in norm.raw(c.func.value).lower() and c.lineno > setups[0].lineno]:
+                ns += 1
+                okw = any(prog.in_body_of(c, t, "body") and (any(M.contains(s_, "$R.cleanup()") for s_ in t.finalbody)
+                                                               or any(M.contains(h, "$R.cleanup()") and (h.type is None or "BaseException" in PC.handler_types(h)) for h in t.handlers))
+                          for t in prog.enclosing(c, (ast.Try,)))
+                if okw:
+                    chk.ok("C20.entry", c, f"{fn.qualname}: site.start() is inside the try that cleans the runner up")
+                else:
+                    chk.violation("C20.entry", c, K.short(c), "inside the try whose handler awaits runner.cleanup()",
+                                  f"{fn.qualname}: when binding the site fails (port in use) after runner.setup() succeeded, every cleanup context that was entered stays un-exited")
+    chk.expect_count("C20.entry.site", ns, 3, "site.start() calls after runner.setup() in the package's entry points")
+    # ---- C20.accept.reuse: a server object that serves again accepts again ---------------------------------------------------------------------------
+    srv = repo.cls(SRV, "Server")
+    latch = {norm.raw(a.targets[0]).split(".")[-1] for a in ast.walk(srv.methods["pre_shutdown"].node) if isinstance(a, ast.Assign) and isinstance(a.value, ast.Constant) and a.value.value is True}
+    for cname, c in repo.module(RUN).classes.items():
+        mk = c.methods.get("_make_server")
+        if mk is None:
+            continue
+        rets = [r for r in ast.walk(mk.node) if isinstance(r, ast.Return) and r.value is not None]
+        reuses = [r for r in rets if isinstance(r.value, ast.Attribute) and norm.raw(r.value.value) == "self"]
+        if not reuses:
+            continue  # builds a new Server for every setup()
+        resets = [a for a in ast.walk(mk.node) if isinstance(a, ast.Assign) and isinstance(a.targets[0], ast.Attribute) and a.targets[0].attr in latch and isinstance(a.value, ast.Constant) and a.value.value is False]
+        if resets or not latch:
+            chk.ok("C20.accept.reuse", mk, f"{cname}._make_server() hands out the same Server again and lowers its shutdown latch ({', '.join(sorted(latch))})")
+        else:
+            chk.violation("C20.accept.reuse", mk, K.short(reuses[0]), f"self.<server>.{sorted(latch)[0]} = False",
+                          f"{cname} serves with the Server object it was given: after one setup()/cleanup() cycle the latch pre_shutdown() raised ({', '.join(sorted(latch))}) stays up, and the runner set up again closes every new connection unserved")
+    # ---- C20.drain.waiter: the handler's exit and shutdown() may both finish the same future ----------------------------------------------------------
+    nf = 0
+    for mname, m in rh.methods.items():
+        for c in [c for c in prog.calls_in(m.node) if isinstance(c.func, ast.Attribute) and c.func.attr in ("set_result", "set_exception") and norm.raw(c.func.value).startswith("self._") and "waiter" in norm.raw(c.func.value)]:
+            nf += 1
+            fut = norm.raw(c.func.value)
+            if any(not l.pos and l.text == f"{fut}.done()" for l in PC.units(PC.pc(K.stmt_of(c), raw=True))):
+                chk.ok("C20.drain.waiter", c, f"RequestHandler.{mname}(): `{fut}` is resolved only when it is not done (shutdown() may have cancelled it)")
+            else:
+                chk.violation("C20.drain.waiter", c, K.short(c), f"if {fut} is not None and not {fut}.done():",
+                              f"RequestHandler.{mname}() resolves `{fut}` unconditionally: when shutdown()'s timeout cancelled the future in the same loop iteration in which the handler ends, set_result() raises InvalidStateError out of the handler task's finally")
+    chk.expect_count("C20.drain.waiter", nf, 2, "waiter futures resolved by attribute in RequestHandler")
 
 
 def hunt2_rules(chk, repo):
